@@ -22,6 +22,8 @@ EXPLANATION += ' RV-DSREAD-HSEM (2 builds x v1/v2), RV-RT-PRESERVE (18 call site
 
 TECHNIQUE += '; def-use, backward liveness and a frame-slot value-preservation analysis over the disassembly of the hand-written runtime assembled for the target (two ISA variants); translation validation of the dataset-read fragment on a term domain'
 
+EXPLANATION += ' RV-RT-STOREORDER, CTOR-INIT, RVV-JIT-VLEN.'
+
 
 def run(ctx, R):
     FI = astq.Facts(ctx, 'K0')
@@ -52,3 +54,4 @@ def run(ctx, R):
     rvdsread.rule_dsread(ctx, R)
     aeshw.rule_rvv_jit_vlen(ctx, R)
     genreset.rule_ctor_init(ctx, R, 'rv64')
+    rtpreserve.rule_store_order(ctx, R, 'rv64')
